@@ -197,4 +197,6 @@ _memo_custom = custom
 
 
 def custom(tier, seed, repo):
-    return _memo_custom(tier, seed, repo) + lexing_obligations(repo)
+    from . import lean_split_lemma_obligation
+    return _memo_custom(tier, seed, repo) + lexing_obligations(repo) + \
+        lean_split_lemma_obligation(tier)
